@@ -31,7 +31,7 @@ ASSUMPTIONS = [
     'window increments and INITIAL_WINDOW_SIZE values stay small enough that no window can exceed 2^31-1',
 ]
 TIERS = {'quick': {'cases': 6000, 'size': 700},
-         'thorough': {'cases': 150000, 'size': 1800}}
+         'thorough': {'cases': 600000, 'size': 1800}}
 
 
 def run_case(data):
